@@ -57,8 +57,13 @@ impl<'a> ProtobufReader<'a> {
             let content_position = position + (pos_before - pos_after);
             let (content_offset, content_length) =
                 Self::read_content_offset_and_length(reader, format)?;
+            // the lengths are not trustworthy
+            let content_end = content_position
+                .checked_add(content_offset)
+                .and_then(|content_position| content_position.checked_add(content_length))
+                .filter(|content_end| *content_end <= range.end)
+                .ok_or_else(|| std::io::Error::from(std::io::ErrorKind::UnexpectedEof))?;
             let content_position = content_position + content_offset;
-            let content_end = content_position + content_length;
 
             tags.push_back((tag, format, content_position..content_end));
             position = content_end;
@@ -194,8 +199,14 @@ impl<'a> ProtobufReader<'a> {
         while let Some(range) = self.next_tag_range::<false>() {
             let mut state = State::Root { range };
             core::mem::swap(&mut self.state, &mut state);
-            vec.push(T::read_value(self)?);
+            let result = T::read_value(self);
             self.state = state;
+            vec.push(result?);
+
+            // the root range never gets consumed, it represents exactly one value
+            if matches!(self.state, State::Root { .. }) {
+                break;
+            }
         }
 
         self.increment_tag_counter();
@@ -381,7 +392,12 @@ impl<'a> Reader for ProtobufReader<'a> {
     fn read_bit_string<C: bitstring::Constraint>(&mut self) -> Result<(Vec<u8>, u64), Self::Error> {
         let mut reader = self.next_range_format_reader(Format::LengthDelimited); // TODO Format::VarInt ??
         let bytes = reader.read_bytes()?;
-        let bits = BitVec::from_vec_with_trailing_bit_len(bytes);
+        // the trailing bit-len is mandatory and must not exceed the actual payload
+        let bits = Some(bytes)
+            .filter(|bytes| bytes.len() >= core::mem::size_of::<u64>())
+            .map(BitVec::from_vec_with_trailing_bit_len)
+            .filter(|bits| bits.bit_len() <= (bits.byte_len() * 8) as u64)
+            .ok_or_else(|| std::io::Error::from(std::io::ErrorKind::UnexpectedEof))?;
         Ok(bits.split())
     }
 
